@@ -40,9 +40,9 @@ func init() {
 		if err != nil {
 			return nil, err
 		}
-		cfg := VerifyCfg{Seed: e.Seed, BitsPer: 24, AltSweep: 4}
+		cfg := VerifyCfg{Seed: e.Seed, BitsPer: 24, AltSweep: 4, MultiByte: 6}
 		if e.Tier == "thorough" {
-			cfg.BitsPer, cfg.AltSweep = 0, 64
+			cfg.BitsPer, cfg.AltSweep, cfg.MultiByte = 0, 64, 2000
 		}
 		if strings.HasPrefix(e.Arg, "bit=") {
 			n, err := strconv.Atoi(e.Arg[4:])
